@@ -265,6 +265,38 @@ Theorem C12_vfs_twins_negotiated : forall s s' t c opts,
   twins_within (vfs_twins s' (snd (pt_init c t (vfs_backend_word s opts)))) opts.
 Proof. exact vfs_twins_negotiated. Qed.
 
+(* handle-path entry points (FLUSH; GETATTR / FSYNC / READDIR with a handle; WRITE with WRITE_KILL_PRIV): ENOSYS,
+   the handle-less data path and the capability drop only with the feature bit in the word of the last INIT *)
+Theorem C12_pt_hpaths_agree : forall c t,
+  let b := pt_behaviour c t in let w := pt_hpaths t in
+  (h_flush w = if b_open_enosys b then UEnosys else UOk) /\
+  h_getattr w = Some (b_open_enosys b) /\ h_fsync w = Some (b_open_enosys b) /\
+  h_readdir w = Some (b_opendir_enosys b) /\ h_write_kp w = Some (b_killpriv b).
+Proof. exact pt_hpaths_agree. Qed.
+
+Theorem C12_ovl_hpaths_agree : forall c t,
+  let b := ovl_behaviour c t in let w := ovl_hpaths t in
+  (h_flush w = if b_open_enosys b then UEnosys else UOk) /\
+  h_getattr w = None /\ h_fsync w = Some (b_open_enosys b) /\ h_readdir w = None /\
+  h_write_kp w = (if b_open_enosys b then None else Some (b_killpriv b)).
+Proof. exact ovl_hpaths_agree. Qed.
+
+Theorem C12_pt_hpaths_negotiated : forall c t capable, hpaths_within (pt_hpaths (snd (pt_init c t capable))) capable.
+Proof. exact pt_hpaths_negotiated. Qed.
+
+Theorem C12_ovl_hpaths_negotiated : forall c t capable, hpaths_within (ovl_hpaths (snd (ovl_init c t capable))) capable.
+Proof. exact ovl_hpaths_negotiated. Qed.
+
+Theorem C12_vfs_hpaths_negotiated : forall s s' t c opts,
+  hpaths_within (vfs_hpaths s' (snd (pt_init c t (vfs_backend_word s opts)))) opts.
+Proof. exact vfs_hpaths_negotiated. Qed.
+
+(* non-vacuity: with every feature negotiated the handle paths are all in their "on" state *)
+Example C12_ex_hpaths_on :
+  pt_hpaths (snd (pt_init under_vfs toggles_off 18446744073709551615)) =
+  mkH UEnosys (Some true) (Some true) (Some true) (Some true).
+Proof. vm_compute. reflexivity. Qed.
+
 (* per-file DAX under a dax_file_size threshold *)
 Theorem C12_pt_dax_threshold : forall d c t capable,
   behaviour_within (pt_behaviour_d d c (snd (pt_init c t capable))) capable.
@@ -377,3 +409,8 @@ Print Assumptions C12_vfs_twins_negotiated.
 Print Assumptions C12_pt_dax_threshold.
 Print Assumptions C12_vfs_async_open_twin.
 Print Assumptions C12_vfs_async_no_open_negotiated.
+Print Assumptions C12_pt_hpaths_agree.
+Print Assumptions C12_ovl_hpaths_agree.
+Print Assumptions C12_pt_hpaths_negotiated.
+Print Assumptions C12_ovl_hpaths_negotiated.
+Print Assumptions C12_vfs_hpaths_negotiated.
